@@ -52,6 +52,10 @@ def cond_true(D):
             if op == 'ge':
                 return ('cmp', 'le', b, a)
             return ('cmp', op, a, b)
+        m = re.search(r'core::num::<impl (i\d+|isize)>::(is_negative|is_positive)$', callee)
+        if m:
+            zero = ('const', '0_' + m.group(1))
+            return ('cmp', 'lt', D[2][0], zero) if m.group(2) == 'is_negative' else ('cmp', 'lt', zero, D[2][0])
     if h == 'shas':
         return ('present', ('skey', D[1], D[2]))
     if h == 'const':
@@ -104,9 +108,10 @@ def cond_discr(crate, x, ty, label, all_labels):
 
 
 class Guard:
-    __slots__ = ('ctx', 'bb', 'label', 'cond', 'at', 'D')
+    __slots__ = ('ctx', 'bb', 'label', 'cond', 'at', 'D', 'origin')
 
     def __init__(self, ctx, bb, label, cond, at, D):
+        self.origin = None
         self.ctx = ctx
         self.bb = bb
         self.label = label
@@ -117,6 +122,11 @@ class Guard:
     @property
     def edge(self):
         return (self.ctx.id, self.bb, self.label)
+
+    @property
+    def truth(self):
+        """plain branch value of the edge (0/1/'otherwise'/'ok'), whatever the label's bookkeeping"""
+        return self.label[1] if isinstance(self.label, tuple) else self.label
 
 
 def guard_edges(g):
@@ -138,6 +148,20 @@ def guard_edges(g):
             dty = t.get('dty', '')
             arm_labels = [a for a, _ in t['arms']]
             for lab in labels:
+                if isinstance(lab, tuple) and lab[0] == 'bs':
+                    # the tested value is (the negation of) a comparison computed elsewhere, identified path-sensitively by the
+                    # abstract store: the edge condition is that comparison's, not the `&&`/`||`/parameter plumbing's
+                    _, iv, site_, neg = lab
+                    D2 = norm(g.site_term(site_))
+                    c = cond_true(D2)
+                    if neg:
+                        c = negate(c)
+                    if not iv:
+                        c = negate(c)
+                    gd_ = Guard(ctx, bb, lab, c, t.get('at'), D2)
+                    gd_.origin = site_
+                    out.append(gd_)
+                    continue
                 if dty == 'bool':
                     truth = (lab != 0) if lab != 'otherwise' else True
                     c = cond_true(D)
